@@ -466,6 +466,8 @@ cdef class cyConstrainedQuadraticModel:
                          align=False)
 
         arr = np.frombuffer(buff[:dtype.itemsize*num_variables], dtype=dtype)
+        if arr.shape[0] != num_variables:
+            raise ValueError("buffer is too small for the given number of variables")
         cdef const int8_t[:] vartype_view = arr['vartype']
         cdef const bias_type[:] lb_view = arr['lb']
         cdef const bias_type[:] ub_view = arr['ub']
